@@ -3,7 +3,12 @@
 // This source code is licensed under the MIT license found in the
 // LICENSE file in the root directory of this source tree.
 
+#[cfg(not(winterfell_verif))]
 use alloc::{collections::BTreeMap, string::ToString, vec::Vec};
+#[cfg(winterfell_verif)]
+use alloc::{string::ToString, vec::Vec};
+#[cfg(winterfell_verif)]
+use super::vmap::BTreeMap;
 
 use utils::{ByteReader, DeserializationError, Serializable};
 
